@@ -183,15 +183,33 @@ pub enum NAct {
     RemoteTick(Addr),
 }
 
-pub const GARBAGE: [(&str, &[u8]); 7] = [
+pub const GARBAGE: [(&str, &[u8]); 12] = [
     ("connect+token", CONNECT_TOKEN),
     ("connect", CONNECT_PLAIN),
+    // connection requests whose other header fields are unusual (a connection ignores them)
+    ("connect ack=5", b"\x10\x05\x00\x01"),
+    ("connect+token ack=0x3ff resend", b"\x53\xff\x00\x01TKEN\xff\xff\xff\xff"),
+    ("connect chunks=3", b"\x10\x00\x03\x01"),
+    ("connect+trailing", b"\x10\x00\x00\x01zz"),
+    ("connect+token ack=0x100", b"\x11\x00\x00\x01TKEN\xff\xff\xff\xff"),
     ("close", b"\x10\x00\x00\x04bye\x00"),
     ("keepalive", b"\x10\x00\x00\x00"),
     ("connless", b"\xff\xff\xff\xff\xff\xffinfo"),
     ("chunks", b"\x00\x00\x01\x40\x01\x01\x42"),
     ("junk", b"\x37\x99"),
 ];
+
+/// What doc/packet.md says about a 0.6 datagram from an unknown address: a connection request
+/// is a control packet (flag bit 0x10, not connectionless, not compressed) whose first payload
+/// byte is 1; the acknowledge field, the resend flag, the chunk count and trailing bytes do not
+/// matter. It offers the token extension iff the payload continues with "TKEN" and four bytes.
+/// Returns Some(offers token).
+pub fn connect_request(d: &[u8]) -> Option<bool> {
+    if d.len() < 4 || d[0] & 0x10 == 0 || d[0] & 0x20 != 0 || d[0] & 0x80 != 0 || d[3] != 1 {
+        return None;
+    }
+    Some(d.len() >= 12 && &d[4..8] == b"TKEN")
+}
 
 impl NAct {
     pub fn render(&self) -> String {
@@ -832,7 +850,7 @@ impl NetM {
                 } else {
                     // unknown address: stateless
                     let connless = d.len() >= 6 && d[0] & 0x20 != 0;
-                    let is_connect = d == CONNECT_TOKEN || d == CONNECT_PLAIN;
+                    let is_connect = connect_request(&d).is_some();
                     exp_ev = if connless { vec![(a, Ev::Connless(d[6..].to_vec()))] } else { vec![] };
                     exp_out = vec![];
                     expect_connect = is_connect && self.cfg.accepting;
@@ -877,7 +895,7 @@ impl NetM {
                 }
                 if expect_connect {
                     let pid = PeerId(connects[0]);
-                    let was_token = d == CONNECT_TOKEN;
+                    let was_token = connect_request(&d).expect("connect request");
                     if policy == Policy::Defer {
                         s.pending.insert(a, was_token);
                         return None;
